@@ -39,7 +39,9 @@ pub(crate) static mut PROTECTED: bool = false; // caller holds a guard under whi
 pub(crate) static mut QUIESCENT_WEAK: bool = false; // try_dealloc context: nobody else can reach the block while Wk == 0 (A-EBR)
 pub(crate) static mut EPOCH_READ: usize = 0;   // value returned by the stubbed global_epoch()
 pub(crate) static mut EPOCH_READS: u32 = 0;
-pub(crate) static mut LIN_WORD: u64 = 0;       // word observed by my last RMW / CAS-success / final load (linearisation point)
+pub(crate) static mut LIN_WORD: u64 = 0;
+pub(crate) static mut MY_LAST_NEW: u64 = 0;      // word written by my last effective step
+fn word_after_my_step_strong() -> u32 { unsafe { State::from_raw(MY_LAST_NEW).strong() } }       // word observed by my last RMW / CAS-success / final load (linearisation point)
 pub(crate) static mut IN_DEFER: bool = false;
 pub(crate) static mut DEFER_DESTRUCT: u32 = 0;
 pub(crate) static mut DEFER_DEALLOC: u32 = 0;
@@ -155,13 +157,17 @@ unsafe fn my_step(a: &AtomicU64, old: u64, new: u64) {
     LIN_WORD = old;
     if old == new { return; }
     STEPS += 1;
+    MY_LAST_NEW = new;
     let (p, n) = (State::from_raw(old), State::from_raw(new));
     let others = (L.o - MY.o, L.p - MY.p, L.wn - MY.wn, L.q - MY.q);
     assert!(!L.freed, "C03.step.no_access_after_free");
     let weak_same = n.weak() == p.weak() && n.weaked() == p.weaked();
     let strong_same = n.strong() == p.strong() && n.destructed() == p.destructed() && n.epoch() == p.epoch();
-    if weak_same && n.destructed() == p.destructed() && n.strong() as u64 == p.strong() as u64 + 1 && n.epoch() == p.epoch() {
-        // T_inc: strong + 1
+    let stamp_fresh = n.epoch() as usize == EPOCH_READ % (1usize << EPOCH_WIDTH) && EPOCH_READS >= 1;
+    if weak_same && n.destructed() == p.destructed() && n.strong() == p.strong() && !p.destructed() && stamp_fresh {
+        // T_stamp: a guard-protected reader refreshes the stamp with an epoch it read (owns nothing)
+    } else if weak_same && n.destructed() == p.destructed() && n.strong() as u64 == p.strong() as u64 + 1 && (n.epoch() == p.epoch() || stamp_fresh) {
+        // T_inc: strong + 1 (possibly refreshing the stamp)
         if p.destructed() {
             // counting on a destructed object: harmless, owns nothing
         } else if p.strong() == 0 {
@@ -306,7 +312,7 @@ macro_rules! rg_harness {
         #[kani::stub(crate::ebr_impl::cs, s_cs)]
         #[kani::stub(Guard::defer_unchecked, s_defer_unchecked)]
         #[kani::stub(Guard::incr_manual_collection, s_incr_manual_collection)]
-        #[kani::stub(crate::ebr_impl::internal::Local::unpin, crate::ebr_impl::internal::verif_internal::s_unpin_unreachable)]
+        #[kani::stub(crate::ebr_impl::internal::Local::unpin, crate::ebr_impl::internal::verif_cut::s_unpin_unreachable)]
         $(#[$m])*
         fn $name() { #[allow(unused_unsafe)] unsafe { $body } }
     };
@@ -450,8 +456,12 @@ fn rg_is_not_destructed() {
     assert!(r == !lin.destructed(), "C05.wsnap_upgrade.result_iff_not_destructed_at_lin_point");
     assert!(MY.o == 0 && MY.p == 0, "C05.wsnap_upgrade.owns_nothing");
     if r { assert!(lin.strong() != 0 || STEPS == 1, "C02.wsnap_upgrade.token_added_when_zero"); }
-    if r && STEPS == 1 { assert!(lin.strong() == 0, "C05.wsnap_upgrade.token_only_from_zero"); }
-    assert!(STEPS <= 1, "C05.wsnap_upgrade.at_most_one_write");
+    // the Snapshot handed out must be protected against IMMEDIATE (cascade) reclamation too: the count word
+    // carries an epoch read during this call, so that the newest-of-three stamp test classifies it recent
+    if r { assert!(EPOCH_READS >= 1 && word(p).epoch() as usize == EPOCH_READ % (1usize << EPOCH_WIDTH), "C02.wsnap_upgrade.success_leaves_stamp_of_epoch_read_in_this_call"); }
+    if r { assert!(STEPS <= 1 && State::from_raw(rd(&(*p).state)).strong() >= 1, "C02.wsnap_upgrade.success_leaves_nonzero_count"); }
+    if r && STEPS == 1 { assert!((lin.strong() == 0) == (word_after_my_step_strong() == lin.strong() + 1), "C05.wsnap_upgrade.token_only_from_zero"); }
+    assert!(STEPS <= 1 && (r || STEPS == 0), "C05.wsnap_upgrade.at_most_one_write_none_on_failure");
     assert!(inv_h(rd(&(*p).state), &L), "C05.wsnap_upgrade.exit_invariant");
     kani::cover!(r && STEPS == 1, "cover.wsnap.token");
     kani::cover!(!r, "cover.wsnap.fails");
